@@ -46,6 +46,16 @@ class _Unrecognised(Exception):
 
 
 def run(prog, res):
+  _bucketing(prog, res)
+  res.floor('H7', 2)
+  from ..rules import staleloop as _sl
+  _sl.check(prog, res, [f for f in prog.module('lattice_lib').all_functions()
+                        if f.parent is None])
+  res.floor('X6', 30)
+  from ..rules import guards as _g
+  for q in ('lattice_lib.compute_interpolation_weights', 'lattice_lib.evaluate_with_simplex_interpolation'):
+    _g.check_clip_paths(prog, res, prog.function(q))
+  res.floor('X5', 2)
   from ..rules import dtypes, validate
   dtypes.selfcheck()
   _cl = validate.call_closure(prog, [prog.function(q) for q in ('lattice_layer.Lattice.call',)],
@@ -486,3 +496,45 @@ def _contraction(prog, fn):
   items.append(('weights-args', 'weights computed from (inputs, '
                 'lattice_sizes, clip_inputs)', p2))
   return items
+
+
+def _bucketing(prog, res):
+  """H7: _bucketize_consequtive_equal_dims may merge only CONSECUTIVE
+  dimensions of equal size (the kernel is row-major over the dimensions in
+  order).  The tensor branch starts a new bucket whenever
+  lattice_sizes[i] != lattice_sizes[i - 1]; list inputs keep one bucket per
+  dimension.  Any other grouping is not recognised (exit 2): whether it
+  preserves the dimension order cannot be decided here."""
+  fn = prog.function('lattice_lib._bucketize_consequtive_equal_dims')
+  res.analysed(fn)
+  d = _defs(fn)
+  top = [st for st in fn.node.body if isinstance(st, ast.If)]
+  if not top:
+    raise AnalysisError('_bucketize_consequtive_equal_dims: list / tensor '
+                        'dispatch vanished')
+  list_arm = top[0].body if 'isinstance' in norm_text(top[0].test) and \
+      'list' in norm_text(top[0].test) else top[0].orelse
+  tensor_arm = top[0].orelse if list_arm is top[0].body else top[0].body
+  la = {dotted(st.targets[0]): st.value for st in list_arm
+        if isinstance(st, ast.Assign)}
+  if set(la) != {'bucket_sizes', 'bucket_dim_sizes'}:
+    raise AnalysisError('_bucketize_consequtive_equal_dims: the list branch '
+                        'regroups its inputs (%s); order preservation of the '
+                        'grouping is not decidable here' % sorted(la))
+  probs = _bad(la['bucket_sizes'], 'bucket sizes of list inputs',
+               '[1] * len(lattice_sizes)')
+  probs += _bad(la['bucket_dim_sizes'], 'bucket dimension sizes of list inputs',
+                'lattice_sizes')
+  res.check(not probs, 'H7', fn.qualname + '|list-buckets', fn.loc(),
+            'list inputs keep one bucket per dimension, in order',
+            '; '.join(probs))
+  tests = [n for st in tensor_arm for n in ast.walk(st)
+           if isinstance(n, ast.If)]
+  if not tests:
+    raise AnalysisError('_bucketize_consequtive_equal_dims: run detection '
+                        'vanished')
+  probs = _bad(tests[0].test, 'start of a new bucket',
+               'lattice_sizes[i] != lattice_sizes[i - 1]')
+  res.check(not probs, 'H7', fn.qualname + '|consecutive-runs', fn.loc(),
+            'a new bucket starts where consecutive sizes differ',
+            '; '.join(probs))
